@@ -641,37 +641,66 @@ func processViolation(e Engine, opt *Options, c *violCase) (string, string) {
 		rf.Violation.Detail = detail
 	}
 	rf.Scenario = sample
-	// 2. shrink the trace (not for deaths without a trace: those are replayed from the seed).
-	if tr != nil && !opt.NoShrink {
-		deadline := time.Now().Add(shrinkBudget())
-		attempts := 0
-		best, bestSample, bestDetail := tr, sample, rf.Violation.Detail
+	// 2. shrink the trace (not for deaths without a trace: those are replayed
+	// from the seed), then require the result to replay strictly in two fresh
+	// processes. Shrinking first uses one persistent worker (fast); if what it
+	// produced does not replay in a fresh process — the violation depends on
+	// state the library carries from one call to the next inside a process —
+	// shrinking is redone with a fresh process per attempt, and failing that
+	// the unminimised trace recorded from the seed is kept.
+	strictTwice := func(t vs.Trace) (bool, string) {
+		for i := 0; i < 2; i++ {
+			ok, _, _, why := reproduces(e, fresh, c, t, true)
+			if !ok {
+				return false, why
+			}
+		}
+		return true, ""
+	}
+	tr0, sample0, detail0 := tr, sample, rf.Violation.Detail
+	shrinkWith := func(rp *replayer, budget time.Duration) vs.Trace {
+		deadline := time.Now().Add(budget)
+		best, bestSample, bestDetail := tr0, sample0, detail0
 		best = Shrink(best, func(cand vs.Trace) (bool, vs.Trace) {
-			attempts++
-			ok, canon, smp, det := reproduces(e, persistent, c, cand, false)
+			rf.Attempts++
+			ok, canon, smp, det := reproduces(e, rp, c, cand, false)
 			if ok && canon != nil {
 				bestSample, bestDetail = smp, det
 				return true, canon
 			}
 			return false, nil
 		}, deadline)
-		rf.Attempts = attempts
-		rf.Shrunk = true
-		tr = best
 		rf.Scenario = bestSample
 		if bestDetail != "" {
 			rf.Violation.Detail = bestDetail
 		}
+		return best
 	}
-	rf.Trace = tr
-	// 3. the minimised trace must reproduce, strictly, in two fresh processes.
 	if tr != nil {
-		for i := 0; i < 2; i++ {
-			ok, _, _, why := reproduces(e, fresh, c, tr, true)
-			if !ok {
-				return "", "minimised trace did not replay strictly: " + why
+		done := false
+		if !opt.NoShrink {
+			tr = shrinkWith(persistent, shrinkBudget())
+			if ok, _ := strictTwice(tr); ok {
+				rf.Shrunk, done = true, true
+			} else {
+				tr = shrinkWith(fresh, 30*time.Second)
+				if ok, _ := strictTwice(tr); ok {
+					rf.Shrunk, done = true, true
+					rf.Note = "minimised with a fresh process per attempt: the violation depends on state carried between calls inside one process"
+				}
 			}
 		}
+		if !done {
+			tr = tr0
+			rf.Scenario, rf.Violation.Detail = sample0, detail0
+			if ok, why := strictTwice(tr); !ok {
+				return "", "trace recorded from the seed did not replay strictly: " + why
+			}
+			if !opt.NoShrink {
+				rf.Note = "not minimised: shrunk candidates did not replay in fresh processes (state carried between calls inside one process); this is the full trace recorded from the seed"
+			}
+		}
+		rf.Trace = tr
 	} else {
 		ok, _, _, _ := reproduces(e, fresh, c, nil, false)
 		if !ok {
